@@ -14,9 +14,25 @@ def run(ctx):
     if not q:
         ctx.model_check("MC_Walk", "selftest_noprogress", constants=W.consts("CandFQ", "RootF", 2, "{1,2}", True, '{"strict"}', PinNoProgress=True),
                         invariants=W.INV_FAULTY, constraints=["NreqCap"], expect=["NoReask", "Bounded"])
+    # nested universe: the agent may answer with the object above the requested instance (a proper prefix of the requested OID)
+    ctx.model_check("MC_Walk", "faulty_nested", constants=W.consts("CandFN", "RootF", 2, "{0,1,2}", True, '{"strict","warn"}'),
+                    invariants=W.INV_FAULTY, constraints=["NreqCap"], must_cover=["Round", "Done"], timeout=3000)
     rnd = random.Random(ctx.seed)
     scs = W.gen(ctx, "faulty")
+    nested = W.gen(ctx, "faulty_nested")
     S = []
+    for sc in nested:
+        for b in (0, 1, 2):
+            if rnd.random() > (0.12 if q else 0.6):
+                continue
+            n = len(sc["roots"])
+            if b == 0:
+                api = rnd.choice(["walk", "multiwalk", "table"]) if n == 1 else "multiwalk"
+                errors = rnd.choice(["strict", "warn"]) if api != "table" else "strict"
+            else:
+                api = rnd.choice(["bulkwalk", "multiwalk_fetcher", "bulktable"]) if n == 1 else rnd.choice(["bulkwalk", "multiwalk_fetcher"])
+                errors = rnd.choice(["strict", "warn"]) if api == "multiwalk_fetcher" else "strict"
+            S.append(dict(sc, bulk=b, api=api, errors=errors, proto="v2c", budget=40, deep=(api == "bulktable")))
     for sc in scs:
         n = len(sc["roots"])
         for b in (0, 1, 2):
@@ -26,11 +42,12 @@ def run(ctx):
                 api = rnd.choice(["walk", "multiwalk", "table"]) if n == 1 else "multiwalk"
                 errors = rnd.choice(["strict", "warn"]) if api != "table" else "strict"
             else:
-                api = rnd.choice(["bulkwalk", "bulkwalk", "bulktable"]) if n == 1 else "bulkwalk"
-                errors = "strict"
+                api = rnd.choice(["bulkwalk", "multiwalk_fetcher", "bulktable"]) if n == 1 else rnd.choice(["bulkwalk", "multiwalk_fetcher"])
+                errors = rnd.choice(["strict", "warn"]) if api == "multiwalk_fetcher" else "strict"     # the GETBULK fetcher handed to multiwalk: lenient bulk walks
             S.append(dict(sc, bulk=b, api=api, errors=errors, proto="v2c", budget=40, deep=(api == "bulktable")))
     ctx.rule = ("every stateless faulty agent F: requested OID -> OID | endOfMibView over the %d-OID universe x root lists x "
-                "{GETNEXT, bulk 1, bulk 2} x {strict, lenient}, applied reactively by the reference agent under a request budget; "
+                "{GETNEXT, bulk 1, bulk 2} x {strict, lenient (GETNEXT walks and multiwalk with the GETBULK fetcher)}, plus every F over a nested universe "
+                "{1.1, 1.1.1, 2.1} (roots 1, 2) whose answers may be proper prefixes of the requested OID (sampled in quick), applied reactively by the reference agent under a request budget; "
                 "non-trivial = >= 2 requests and >= 1 instance") % (5 if q else 6)
     ctx.exhaustive = not q
     W.drive_and_judge(ctx, S)
